@@ -549,9 +549,45 @@ def class_kept_whole(P, R, rule='C11.BND.2'):
     R.floor(rule, 1, 'copies of the class into the request')
 
 
+def limits_admit_maximum(P, R, rule='C11.BND.3'):
+    """Criteria are applied to what the server reported: a text of the documented maximum length (LEN characters in a
+    member declared LEN+1) is kept, not refused.  Wherever a handler copies one of its text parameters into a member of
+    the request and also tests that parameter's length against a constant, the side of the test on which the copy
+    happens admits a length of LEN (a `>= LEN` rejection turns the longest legal host name into "no host name", and a
+    rule on the host name no longer sees the client)."""
+    from .. import bnd
+    n = 0
+    for f in P.unit_fns('modules/iauth_core.c'):
+        params = {p['name'] for p in f.param_info if 'char' in p.get('t', '')}
+        if not params:
+            continue
+        copies = []
+        for s in f.calls():
+            if s.ev.get('callee') in ('strncpy', 'strlcpy', 'memcpy', 'strcpy') and len(s.ev['args']) >= 2 and is_var(s.ev['args'][1]) and s.ev['args'][1]['name'] in params:
+                ext = bnd.extent_of(f, s.ev['args'][0])
+                if ext and any(isinstance(x, dict) and x.get('k') == 'mem' and x.get('rec') == 'iauth_request' for x in walk(s.ev['args'][0])):
+                    copies.append((s, s.ev['args'][1]['name'], ext[0] - ext[1]))
+        for s, v, room in copies:
+            n += 1
+            limit = None      # the greatest length admitted on the way to the copy
+            for g in f.guards(s.bid):
+                l = g[0]
+                while isinstance(l, dict) and l.get('k') == 'cast':
+                    l = l.get('e')
+                if isinstance(l, dict) and l.get('k') == 'callref' and l.get('callee') == 'strlen' and l['args'] and is_var(l['args'][0], v) and isinstance(const_of(g[2]), int):
+                    k = const_of(g[2])
+                    m = {'<': k - 1, '<=': k, '==': k}.get(g[1])
+                    if m is not None:
+                        limit = m if limit is None else min(limit, m)
+            R.ob(rule, limit is None or limit >= room - 1, s, 'in %s the copy of %s into a %d-byte member happens for every length up to %d (%s)' % (
+                f.name, v, room, room - 1, 'no length test on the way' if limit is None else 'lengths up to %d get here' % limit), key='admits-maximum:%s' % f.name, nontrivial=limit is not None)
+    R.floor(rule, 2, 'copies of server-reported texts into the request')
+
+
 def run(P, R, tier):
     ok_query(P, R)
     class_kept_whole(P, R)
+    limits_admit_maximum(P, R)
     # the address criterion compares the prefix length the mask parser reports
     from . import c13
     from ..report import Remap
@@ -585,4 +621,6 @@ def run(P, R, tier):
     wiring(P, R, H)
     # the OK mask covers every slot a rule can name
     rules.narrowing_fields(P, R, 'C11.WID.1', ('modules/iauth_core.c', 'modules/iauth_xquery.c', 'modules/iauth_class.c'))
+    # the address criterion is a prefix test over ALL leading bits: the mask walk starts at the first group
+    c13.mask_walk_from_start(P, R, 'C11.TAB.9')
     return EXPLANATION, ASSUMPTIONS
